@@ -128,8 +128,8 @@ Proof.
   intros [[[[-> ->] ->] ->] ->]. reflexivity.
 Qed.
 
-Definition row_ok (direct : bool) (root : string) (argp ff : bool) : bool :=
-  match select_b root argp ff with
+Definition row_check (direct argp ff : bool) (o : option path) : bool :=
+  match o with
   | Some p => match lin (p_skip p) with
               | Some L => lform_eqb L (expect direct argp ff p)
               | None => false
@@ -140,10 +140,10 @@ Definition row_ok (direct : bool) (root : string) (argp ff : bool) : bool :=
 Definition bools := [true; false].
 
 Definition direct_ok : bool :=
-  forallb (fun root => forallb (fun argp => forallb (fun ff => row_ok true root argp ff) bools) bools) cc_direct.
+  forallb (fun root => forallb (fun argp => forallb (fun ff => row_check true argp ff (select_b root argp ff)) bools) bools) cc_direct.
 
 Definition hooks_ok : bool :=
-  forallb (fun root => forallb (fun ff => row_ok false root false ff) bools) (cc_finalizers ++ cc_terminals).
+  forallb (fun root => forallb (fun ff => row_check false false ff (select_b root false ff)) bools) (cc_finalizers ++ cc_terminals).
 
 Definition entries_ok : bool := forallb (fun e => sumZ (snd e) =? 0) cc_entries.
 
@@ -258,19 +258,30 @@ Proof.
   destruct (is_some (r_arg r)); [right; reflexivity|left; reflexivity].
 Qed.
 
-Lemma row_read direct root r st :
-  row_ok direct root (is_some (r_arg r)) (r_field r =? flag_value) = true ->
+Lemma row_read_aux direct r st (o : option path) :
+  row_check direct (is_some (r_arg r)) (r_field r =? flag_value) o = true ->
   (direct = false -> r_arg r = None) ->
   0 <= offset direct r ->
-  read root r st = nth_error st (Z.to_nat (offset direct r)).
+  match o with Some p => run_path p r st | None => None end = nth_error st (Z.to_nat (offset direct r)).
 Proof.
-  intros Hrow Harg Hoff. unfold read. rewrite select_abs. unfold row_ok in Hrow.
-  destruct (select_b root (is_some (r_arg r)) (r_field r =? flag_value)) as [p|]; [|discriminate].
+  intros Hrow Harg Hoff. destruct o as [p|]; [|discriminate]. unfold row_check in Hrow.
   destruct (lin (p_skip p)) as [L|] eqn:EL; [|discriminate].
   apply lform_eqb_eq in Hrow. subst L. unfold run_path.
   rewrite (lin_sum _ _ _ EL (expect_la direct r p _)).
   rewrite (expect_rval direct r p Harg).
   apply nth_error_skip_frames. exact Hoff.
+Qed.
+
+Lemma row_read direct root r st :
+  row_check direct (is_some (r_arg r)) (r_field r =? flag_value)
+            (select_b root (is_some (r_arg r)) (r_field r =? flag_value)) = true ->
+  (direct = false -> r_arg r = None) ->
+  0 <= offset direct r ->
+  read root r st = nth_error st (Z.to_nat (offset direct r)).
+Proof.
+  intros Hrow Harg Hoff. unfold read. rewrite select_abs. revert Hrow.
+  generalize (select_b root (is_some (r_arg r)) (r_field r =? flag_value)). intros o Hrow.
+  exact (row_read_aux direct r st o Hrow Harg Hoff).
 Qed.
 
 Lemma in_bools b : In b bools.
@@ -282,7 +293,8 @@ Lemma read_direct root r st : In root cc_direct -> 0 <= offset true r ->
 Proof.
   intros Hin Hoff. apply row_read; [|discriminate|exact Hoff].
   pose proof direct_rows_ok as D. unfold direct_ok in D. rewrite forallb_forall in D.
-  specialize (D root Hin). rewrite forallb_forall in D. specialize (D _ (in_bools (is_some (r_arg r)))).
+  specialize (D root Hin). cbv beta in D. rewrite forallb_forall in D.
+  specialize (D _ (in_bools (is_some (r_arg r)))). cbv beta in D.
   rewrite forallb_forall in D. exact (D _ (in_bools _)).
 Qed.
 
@@ -292,7 +304,7 @@ Lemma read_hook root r st : In root (cc_finalizers ++ cc_terminals) -> r_arg r =
 Proof.
   intros Hin Harg Hoff. apply row_read; [|intros _; exact Harg|exact Hoff].
   pose proof hook_rows_ok as D. unfold hooks_ok in D. rewrite forallb_forall in D.
-  specialize (D root Hin). rewrite forallb_forall in D. rewrite Harg. cbn [is_some].
+  specialize (D root Hin). cbv beta in D. rewrite forallb_forall in D. rewrite Harg. cbn [is_some].
   exact (D _ (in_bools _)).
 Qed.
 
@@ -370,7 +382,7 @@ Proof.
     destruct (lookup_in en cc_entries Hen) as [lits [L I]]. rewrite L.
     apply mem_In in Hfin. rewrite Hfin.
     pose proof entries_apply_no_skip as E. unfold entries_ok in E. rewrite forallb_forall in E.
-    specialize (E _ I). cbn in E. apply Z.eqb_eq in E. rewrite E, new_skipFrame_0. cbn [Z.add].
+    specialize (E _ I). cbn [snd] in E. apply Z.eqb_eq in E. rewrite E, new_skipFrame_0. cbn [Z.add].
     destruct (spec_ops (w_global w) 0 ops) as [sf xs] eqn:Eo.
     apply Forall_app in H as [H1 H2].
     rewrite run_ops_spec by (rewrite Eo; exact H1). rewrite Eo. cbn [fst snd].
@@ -415,13 +427,16 @@ Proof.
 Qed.
 
 (* other hooks that do call CallerSkipFrame: their arguments add up (event.go: "This includes those added via hooks") *)
+Lemma spec_hooks_others g post : forall sf, spec_hooks g sf (map HOther post) = [].
+Proof. induction post as [|b u IH]; intros sf; cbn [map spec_hooks]; auto. Qed.
+
 Lemma spec_hooks_adds g pre f post : forall sf,
   spec_hooks g sf (map HOther pre ++ HCaller f :: map HOther post) =
   [sf + sumZ pre + (if f =? flag_value then g - global_default else f - global_default)].
 Proof.
-  induction pre as [|a t IH]; intros sf; cbn.
-  - f_equal; [lia|]. generalize (sf). induction post as [|b u IHu]; intros s; cbn; [reflexivity|apply IHu].
-  - rewrite IH. f_equal. lia.
+  induction pre as [|a t IH]; intros sf; cbn [map app spec_hooks].
+  - rewrite spec_hooks_others. unfold sumZ; cbn [fold_right]. f_equal. lia.
+  - rewrite IH. unfold sumZ; cbn [fold_right]. f_equal. lia.
 Qed.
 
 Lemma spec_ops_skip_caller g k a :
@@ -448,7 +463,7 @@ Section Mechanisms.
   Let g0 := global_default.
 
   Local Ltac finish E :=
-    rewrite run_stmt_spec; [rewrite E; cbn [map]; unfold st; rewrite ustack_frame by exact Hk; reflexivity
+    rewrite run_stmt_spec; [rewrite E; cbn [map]; unfold st, K, want; rewrite ustack_frame by exact Hk; reflexivity
                            | cbn [stmt_in_table]; auto
                            | rewrite E; repeat constructor; lia].
 
@@ -462,7 +477,7 @@ Section Mechanisms.
     intros Hen Hfin.
     assert (E : spec_stmt {| w_global := g0; w_stale := stale; w_hooks := pre ++ post |} (SLog en [OSkipFrame K; OCaller None] fin) = [K]).
     { cbn [spec_stmt w_global w_hooks]. rewrite spec_ops_skip_caller. rewrite spec_hooks_quiet by exact quiet_app.
-      cbn. f_equal. unfold g0. lia. }
+      unfold g0. cbn [app arg_or0]. f_equal; lia. }
     finish E.
   Qed.
 
@@ -473,7 +488,7 @@ Section Mechanisms.
     intros Hen Hfin.
     assert (E : spec_stmt {| w_global := g0; w_stale := stale; w_hooks := pre ++ post |} (SLog en [OCaller (Some K)] fin) = [K]).
     { cbn [spec_stmt w_global w_hooks spec_ops]. rewrite spec_hooks_quiet by exact quiet_app.
-      cbn. f_equal. unfold g0. lia. }
+      unfold g0. cbn [app arg_or0]. f_equal; lia. }
     finish E.
   Qed.
 
@@ -484,7 +499,7 @@ Section Mechanisms.
     intros Hen Hfin.
     assert (E : spec_stmt {| w_global := g0 + K; w_stale := stale; w_hooks := pre ++ post |} (SLog en [OCaller None] fin) = [K]).
     { cbn [spec_stmt w_global w_hooks spec_ops]. rewrite spec_hooks_quiet by exact quiet_app.
-      cbn. f_equal. unfold g0. lia. }
+      unfold g0. cbn [app arg_or0]. f_equal; lia. }
     finish E.
   Qed.
 
@@ -495,7 +510,7 @@ Section Mechanisms.
     intros Hen Hfin.
     assert (E : spec_stmt {| w_global := g0; w_stale := stale; w_hooks := pre ++ HCaller flag_value :: post |} (SLog en [OSkipFrame K] fin) = [K]).
     { cbn [spec_stmt w_global w_hooks spec_ops]. rewrite spec_hooks_one by assumption.
-      rewrite Z.eqb_refl. cbn. f_equal. unfold g0. lia. }
+      rewrite Z.eqb_refl. unfold g0. cbn [app]. f_equal; lia. }
     finish E.
   Qed.
 
@@ -506,7 +521,7 @@ Section Mechanisms.
     intros Hen Hfin.
     assert (E : spec_stmt {| w_global := g0; w_stale := stale; w_hooks := pre ++ HCaller (2 + K) :: post |} (SLog en [] fin) = [K]).
     { cbn [spec_stmt w_global w_hooks spec_ops]. rewrite spec_hooks_one by assumption.
-      rewrite <- global_default_is_2. rewrite flag_not_small by (unfold K; lia). cbn. f_equal. lia. }
+      rewrite <- global_default_is_2. rewrite flag_not_small by (unfold K; lia). cbn [app]. f_equal; lia. }
     finish E.
   Qed.
 
@@ -517,7 +532,7 @@ Section Mechanisms.
     intros Hen Hfin.
     assert (E : spec_stmt {| w_global := g0 + K; w_stale := stale; w_hooks := pre ++ HCaller flag_value :: post |} (SLog en [] fin) = [K]).
     { cbn [spec_stmt w_global w_hooks spec_ops]. rewrite spec_hooks_one by assumption.
-      rewrite Z.eqb_refl. cbn. f_equal. unfold g0. lia. }
+      rewrite Z.eqb_refl. unfold g0. cbn [app]. f_equal; lia. }
     finish E.
   Qed.
 
@@ -528,7 +543,7 @@ Section Mechanisms.
     intros Ht.
     assert (E : spec_stmt {| w_global := g0; w_stale := stale; w_hooks := pre ++ HCaller (2 + K) :: post |} (STerminal t) = [K]).
     { cbn [spec_stmt w_global w_hooks]. rewrite spec_hooks_one by assumption.
-      rewrite <- global_default_is_2. rewrite flag_not_small by (unfold K; lia). cbn. f_equal. lia. }
+      rewrite <- global_default_is_2. rewrite flag_not_small by (unfold K; lia). cbn [app]. f_equal; lia. }
     finish E.
   Qed.
 
@@ -538,7 +553,7 @@ Section Mechanisms.
     intros Ht.
     assert (E : spec_stmt {| w_global := g0 + K; w_stale := stale; w_hooks := pre ++ HCaller flag_value :: post |} (STerminal t) = [K]).
     { cbn [spec_stmt w_global w_hooks]. rewrite spec_hooks_one by assumption.
-      rewrite Z.eqb_refl. cbn. f_equal. unfold g0. lia. }
+      rewrite Z.eqb_refl. unfold g0. cbn [app]. f_equal; lia. }
     finish E.
   Qed.
 End Mechanisms.
